@@ -115,6 +115,14 @@ Expression * ParseExpression::assertTypeUniform(Expression * exp, const Type& ty
  * Member operator for an element: is the precedence with the highgest priority
  * The member operator could be recursive.
  */
+/* hand over an expression whose ownership is transferred to the callee */
+static Expression * release(Expression *& exp)
+{
+  Expression * tmp = exp;
+  exp = nullptr;
+  return tmp;
+}
+
 Expression * ParseExpression::member(Expression * exp)
 {
   try
@@ -141,6 +149,8 @@ Expression * ParseExpression::member(Expression * exp)
   catch (ParseError& pe)
   {
     DBG(DBG_DEBUG, "exception %p at %s line %d\n", &pe, __PRETTY_FUNCTION__, __LINE__);
+    /* free the expression as built so far: it owns the one passed on entry */
+    delete exp;
     throw;
   }
   return exp;
@@ -176,14 +186,14 @@ Expression * ParseExpression::element()
       break;
     case TOKEN_LITERALSTR:
       result = new LiteralExpression(Value::parseLiteral(t->text));
-      return member(result);
+      return member(release(result));
     case TOKEN_KEYWORD:
       if (BuiltinExpression::findKeyword(t->text) != BuiltinExpression::unknown)
       {
         /* found a builtin function */
         p.push(t);
         result = BuiltinExpression::parse(p, ctx);
-        return member(result);
+        return member(release(result));
       }
       else
       {
@@ -192,14 +202,14 @@ Expression * ParseExpression::element()
         {
           /* found a CTOR of complex */
           result = ComplexCTORExpression::parse(p, ctx, type_id);
-          return member(result);
+          return member(release(result));
         }
         /* finally it should be a symbol */
         if (p.front()->code == '(')
           result = FunctorExpression::parse(p, ctx, t);
         else
           result = VariableExpression::parse(p, ctx, t);
-        return member(result);
+        return member(release(result));
       }
     case '(':
     {
@@ -209,7 +219,7 @@ Expression * ParseExpression::element()
       if (t->code != ')')
         throw ParseError(EXC_PARSE_MM_PARENTHESIS, t);
       result->enclosed(true);
-      return member(result);
+      return member(release(result));
     }
     default:
       throw ParseError(EXC_PARSE_UNEXPECTED_LEX_S, t->text.c_str(), t);
